@@ -1722,7 +1722,7 @@ class sptensor:
                 return self.copy()
             return ttb.sptensor(
                 self.subs,
-                self.vals * factor[self.subs[:, dims]][:, None],
+                self.vals * np.atleast_1d(factor[self.subs[:, dims]])[:, None],
                 self.shape,
             )
         if isinstance(factor, ttb.sptensor):
